@@ -377,6 +377,24 @@ GATE_FORMS = {
 }
 
 
+def _more_forms():
+    """Argument values a gate might be made to depend on: every kind of nickname text (blank,
+    white space only, protocol words, version-like text, 16 characters) and the servo timeouts
+    and power states at the ends of their ranges."""
+    names = [" ", "  ", "\t", " \t ", "\n", "\r", "0", "None", "OK", "V", "2.5.5", "3.0.0", "ST",
+             "QT", ",", "a,b", "A name of 16 chr", "A name of 17 char", "-", "x" * 64]
+    for k, name in enumerate(names):
+        GATE_FORMS["write_nickname"]["name%d" % k] = \
+            (lambda m, s, p, name=name: s.write_nickname(p, name))
+    for k, (ms, state) in enumerate(itertools.product((0, 1, 60000, 65535, (1 << 31) - 1, -1),
+                                                      (None, 0, 1))):
+        GATE_FORMS["servo_timeout"]["value%d" % k] = \
+            (lambda m, s, p, ms=ms, state=state: m.servo_timeout(p, ms, state))
+
+
+_more_forms()
+
+
 def check_gate(feature, version, form=None):
     from plotink import ebb_motion, ebb_serial      # pylint: disable=import-outside-toplevel
     core.quiet_legacy_logger()
